@@ -505,11 +505,13 @@ Proof.
   reflexivity.
 Qed.
 
-Lemma renorm_zero p s : s <> [] -> renorm p = true -> qsum (fst (select p s)) == 0 ->
-  truncate p s = Some (None, snd (select p s)).
+Lemma renorm_zero p s : s <> [] -> bond_ok (max_bond p) -> renorm p = true ->
+  qsum (fst (select p s)) == 0 -> truncate p s = Some (None, snd (select p s)).
 Proof.
-  intros Hne Hr Hk. rewrite truncate_spec by auto. rewrite Hr. unfold renormalise.
-  apply Qeq_bool_iff in Hk. now rewrite Hk.
+  intros Hne Hb Hr Hk. rewrite truncate_spec by auto. rewrite Hr. unfold renormalise.
+  apply Qeq_bool_iff in Hk. rewrite Hk.
+  pose proof (select_length p s Hne Hb) as Hl.
+  destruct (fst (select p s)); [cbn [length] in Hl; lia|reflexivity].
 Qed.
 
 Lemma no_renorm p s : s <> [] -> renorm p = false ->
